@@ -17,7 +17,7 @@ def run(v, tier, replay):
     binp = lib.go_build("c20")
     sd = lib.scratch("vf-c20-")
     tr = os.path.join(sd, "trace.ndjson")
-    maxp, maxs, nrand = (5, 6, 20000) if thorough else (4, 5, 3000)
+    maxp, maxs, nrand = (6, 7, 100000) if thorough else (4, 5, 3000)
     rc, so, se = lib.run([binp, tr, str(lib.seed()), str(maxp), str(maxs), str(nrand)], timeout=900)
     if rc != 0:
         raise lib.Inconclusive("c20 driver failed: " + se[-2000:])
